@@ -195,6 +195,37 @@ def _cycle_avoiding(body, h, nodes, avoid_blocks, avoid_edges):
     return False
 
 
+_MUST = {}
+
+
+def _must_callers(prog, target, depth=3):
+    """Crate functions in which every path from entry to a success exit passes a call of `target`
+    (directly or through another such function)."""
+    key = (id(prog), target)
+    if key in _MUST:
+        return _MUST[key]
+    M = set()
+    for _ in range(depth):
+        grew = False
+        for q, b in prog.bodies.items():
+            if q in M or q == target or b.kind == 'closure' or not q.startswith(F):
+                continue
+            blocks = {bb for bb, t in b.calls() if (t.resolved or t.callee) == target or (t.resolved or t.callee) in M}
+            if not blocks:
+                continue
+            exits = [blk.idx for blk in b.blocks if not blk.cleanup and blk.term.k == 'ret']
+            if flow.type_kind(b.locals[0]) in ('result', 'option'):
+                exits = [e['bb'] for e in gate.success_exit_blocks(b)]
+            reach = flow.reach_edges(b, [0], avoid_blocks=blocks)
+            if exits and not any(x in reach for x in exits):
+                M.add(q)
+                grew = True
+        if not grew:
+            break
+    _MUST[key] = M
+    return M
+
+
 def _seedcover(ctx, cfg, prog, mod):
     import loops
     ctx.rule('SEEDCOVER', 'seed_repair_queues enqueues every simplex class for every present cell on every path of an iteration')
@@ -204,6 +235,12 @@ def _seedcover(ctx, cfg, prog, mod):
     calls = {}
     for bb, t in b.calls():
         calls.setdefault(t.resolved or t.callee, []).append(bb)
+    # a helper that itself passes an enqueue function on every path to a success exit counts as that function
+    for fam_q in list(CELL_FAMILIES.values()) + [FACET_CELL]:
+        for hq in _must_callers(prog, fam_q):
+            for bb in calls.get(hq, []):
+                if bb not in calls.setdefault(fam_q, []):
+                    calls[fam_q].append(bb)
     # edges taken when the cell is absent (`!tds.contains_cell(key)`): a legitimate skip
     skip_edges = set()
     uses = flow._collect_uses(b)
